@@ -235,6 +235,17 @@ pub fn bad_rule() -> RuleSpec {
 /// (a user writes conditional rules with these; all five must behave alike).
 pub fn mk_rewrite<N: Analysis<LArith> + 'static>(r: &RuleSpec) -> Rewrite<LArith, N> {
     match r.not_free {
+        // an unconditional rule with a plain right side is, in a third of the (case, rule) pairs, built the way a user builds a custom
+        // rule: RewriteT with ematch_all as searcher and union_instantiations per match as applier
+        None if !r.rhs.contains('[') && (crate::core::case_salt() ^ crate::rng::fnv(r.name)) % 3 == 0 => {
+            let (a, b) = (Pattern::<LArith>::parse(r.lhs).unwrap(), Pattern::<LArith>::parse(r.rhs).unwrap());
+            let (a2, name) = (a.clone(), r.name.to_string());
+            RewriteT { searcher: Box::new(move |eg: &EGraph<LArith, N>| ematch_all(eg, &a)), applier: Box::new(move |substs: Vec<Subst>, eg: &mut EGraph<LArith, N>| {
+                for s in substs {
+                    eg.union_instantiations(&a2, &b, &s, Some(name.clone()));
+                }
+            }) }.into()
+        }
         None => Rewrite::new(r.name, r.lhs, r.rhs),
         Some((s, v)) => {
             let form = (crate::core::case_salt() ^ crate::rng::fnv(r.name)) % 8;
@@ -465,6 +476,9 @@ pub fn run_case(rng: &mut Rng, bad: bool) -> CaseOut {
     for r in &chosen {
         if r.rhs.contains('[') {
             out.inc("runs_with_subst_rule");
+        }
+        if r.not_free.is_none() && !r.rhs.contains('[') && (crate::core::case_salt() ^ crate::rng::fnv(r.name)) % 3 == 0 {
+            out.inc("rules_built_through_RewriteT_and_union_instantiations");
         }
         if r.not_free.is_some() {
             out.inc("runs_with_conditional_rule");
